@@ -134,12 +134,30 @@ def run(ctx) -> None:
     rep.add("C08.R3", f"{up.qname}:visited-once", ok, up.loc(), "each parameter name is yielded once (seen-set) and the loop iterates that generator" if ok else "a parameter shared by several nodes can be visited more than once")
 
     # ---- R4 ---------------------------------------------------------------------
+    cis4 = db.func("graph.input_spec.compute_input_spec")
+
+    def bound_param_of(callee):
+        """The callee's parameter that receives compute_input_spec's bound mapping (by call-site binding)."""
+        for c in db.calls_in(cis4):
+            if any(cal.func is callee for cal in db.resolve_call(c, cis4)):
+                for pn, a in (bind_args(c, callee) or {}).items():
+                    if isinstance(a, ast.Name) and a.id == "bound":
+                        return pn
+        return None
+
     cat = db.func("graph.input_spec._categorize_param")
-    ok = "bound" in cat.param_names and any(isinstance(n, ast.Compare) and isinstance(n.ops[0], ast.In) and src(n.comparators[0]) == "bound" for n in walk_local(cat.node))
+    bp = bound_param_of(cat)
+    ok = bp is not None and any(isinstance(n, ast.Compare) and isinstance(n.ops[0], ast.In) and src(n.comparators[0]) == bp for n in walk_local(cat.node))
     rep.add("C08.R4", f"{cat.qname}:reads-bound", ok, cat.loc(), "a bound parameter is categorised optional (membership in the bound mapping)" if ok else "categorisation no longer consults the bound mapping")
     ce = db.func("graph.input_spec._compute_entrypoints")
-    ok = "bound" in ce.param_names and any(isinstance(x, ast.Name) and x.id == "bound" for x in walk_local(ce.node))
+    bp2 = bound_param_of(ce)
+    ok = bp2 is not None and any(isinstance(x, ast.Name) and x.id == bp2 and isinstance(x.ctx, ast.Load) for x in walk_local(ce.node))
     rep.add("C08.R4", f"{ce.qname}:reads-bound", ok, ce.loc(), "entry-point computation receives and uses the bound mapping" if ok else "entry-point computation ignores the bound mapping")
+    # required vs optional is decided from the defaults table, which is keyed through the forward rename map: renames
+    # of one with_inputs call are applied in parallel (a swap a<->b must not move b's default onto a)
+    from .c06 import check_batch_isolation
+
+    check_batch_isolation(ctx, "C08.R4", (db.func("nodes._callable._build_forward_rename_map"),))
     # the category computed from the call is passed the graph's bound dict
     calls = [c for c in db.calls_in(cis) if "_categorize_param" in call_names(db, c, cis)]
     ok = bool(calls) and all(any(isinstance(a, ast.Name) and a.id == "bound" for a in c.args) for c in calls)
